@@ -185,8 +185,13 @@ func scopeDoStruct(c *scopeCase) error {
 		return valid.StructForFns(src, scopeRM(c.Unscoped), scopeFnMap(c))
 	case "NestedStructForRule":
 		rm := map[interface{}]valid.RM{}
-		for _, ts := range c.Typed {
-			rm[reflect.New(scopeType(ts.Type)).Interface()] = scopeRM(ts.RM)
+		for i, ts := range c.Typed {
+			// the key names the type: a pointer to a value, or a typed nil pointer (nothing is ever read through it)
+			if (c.ID+i)%3 == 2 {
+				rm[reflect.Zero(reflect.PtrTo(scopeType(ts.Type))).Interface()] = scopeRM(ts.RM)
+			} else {
+				rm[reflect.New(scopeType(ts.Type)).Interface()] = scopeRM(ts.RM)
+			}
 		}
 		return valid.NestedStructForRule(src, rm)
 	case "vstruct", "vstruct-rev":
@@ -194,9 +199,16 @@ func scopeDoStruct(c *scopeCase) error {
 		setTyped := func() {
 			for i, ts := range c.Typed {
 				obj := reflect.New(scopeType(ts.Type)) // the type is named by a pointer or by a value of it
-				if (c.ID+i)%2 == 1 {
+				switch (c.ID + i) % 4 {
+				case 1:
 					vs.SetRule(scopeRM(ts.RM), obj.Elem().Interface())
-				} else {
+				case 2: // a typed nil pointer names the type as well as any other pointer
+					vs.SetRule(scopeRM(ts.RM), reflect.Zero(obj.Type()).Interface())
+				case 3: // a pointer to a pointer
+					pp := reflect.New(obj.Type())
+					pp.Elem().Set(obj)
+					vs.SetRule(scopeRM(ts.RM), pp.Interface())
+				default:
 					vs.SetRule(scopeRM(ts.RM), obj.Interface())
 				}
 			}
